@@ -10,7 +10,7 @@ use crate::ent::BoxError;
 use crate::p_sched::{dfs, programs, sched_case_with_obs};
 use crate::p_serve::{c01_block, c01_n_blocks, c06_block, c06_n_blocks, c07_cases_for_tuple, c07_tuples, exec as exec_serve, replay_serve};
 use crate::p_stream::{c08_block, c08_n_blocks, c09_block, c09_n_blocks, c11_run_seq_block, c11_seq_space, replay as replay_stream};
-use crate::util::{hash64, norm_loc};
+use crate::util::{hash64, norm_loc, Rng};
 use bytes::Bytes;
 use serde_json::{json, Value};
 
@@ -188,6 +188,81 @@ fn c12_conversions(sink: &mut Sink) {
     }
 }
 
+/// Free-running hint-spin trials (see e3::run_spin).
+fn c12_spin_judge(c: &crate::e3::SpinCase, o: &crate::e3::SpinObs, sink: &mut Sink) -> Verdict {
+    let kind = if c.gzip.is_some() { "spin-gzip" } else { "spin-raw" };
+    if let Some(p) = &o.panic {
+        sink.cross_note("panic-in-stream-op", || p.clone());
+        return Verdict::DontCare("panic (judged by C08/C10)".into());
+    }
+    let total = if o.terminal == Some(Ev::End) { Some(o.delivered) } else { None };
+    for (l, u, e, d) in &o.samples {
+        if *e {
+            if let Some(bad) = o.after_end_flag.iter().find(|ev| matches!(ev, Ev::Data(n) if *n > 0) || matches!(ev, Ev::Err(_))) {
+                let what = if matches!(bad, Ev::Err(_)) { "error" } else { "data" };
+                return Verdict::viol(format!("end-flag-then-{}|{}", what, kind), format!("is_end_stream() returned true with {} bytes delivered; the body then produced {:?}", d, bad));
+            }
+        }
+        if let Some(t) = total {
+            let rem = t - d;
+            if *l > rem {
+                return Verdict::viol(format!("lower-above-remaining|{}", kind), format!("size_hint lower {} with {} bytes still to come (delivered {} of {})", l, rem, d, t));
+            }
+            if u.is_some_and(|u| u < rem) {
+                return Verdict::viol(format!("upper-below-remaining|{}", kind), format!("size_hint upper {:?} with {} bytes still to come (delivered {} of {})", u, rem, d, t));
+            }
+        }
+    }
+    sink.count("spin_trials");
+    sink.add("hint_samples", o.n_samples);
+    sink.add("spin_hint_samples", o.n_samples);
+    sink.add("spin_samples_while_writer_ending", o.samples_during_end);
+    if o.samples.iter().any(|s| s.2) {
+        sink.count("spin_trials_end_flag_seen_while_spinning");
+    }
+    if o.samples_during_end > 0 {
+        sink.count("spin_trials_overlapping_the_writer_end");
+    }
+    Verdict::Ok
+}
+
+fn c12_spin_blocks(ctx: &Ctx) -> Vec<(usize, Option<u32>, bool, u64)> {
+    let n = if ctx.leg.slow() { 2 } else if thorough(ctx) { 20_000 } else { 2500 };
+    let mut v = Vec::new();
+    for (chunk, gzip) in [(4096usize, None), (4, None), (4096, Some(1u32)), (65_536, Some(6))] {
+        for abort in [false, true] {
+            v.push((chunk, gzip, abort, n));
+            if ctx.leg.slow() {
+                return v;
+            }
+        }
+    }
+    v
+}
+
+fn c12_spin_block(b: usize, sink: &mut Sink) {
+    let ctx = sink.ctx.clone();
+    let (chunk, gzip, abort, n) = c12_spin_blocks(&ctx)[b];
+    let mut rng = Rng::from_parts(ctx.seed, &[1212, b as u64]);
+    for _ in 0..n {
+        if !sink.admit() {
+            return;
+        }
+        let case = crate::e3::SpinCase {
+            chunk,
+            gzip,
+            pre: *rng.pick(&[0u32, 1, 5, chunk as u32]),
+            tail: *rng.pick(&[1u32, 1, 3, 0, chunk as u32 - 1]),
+            abort,
+            delay: if rng.chance(1, 2) { rng.below(64) as u32 } else { rng.below(4000) as u32 },
+        };
+        if let Some(o) = crate::e3::run_spin(&case) {
+            let v = c12_spin_judge(&case, &o, sink);
+            sink.record(v, Some(hash64(&(&case, o.samples.len(), o.samples_during_end > 0))), &|| json!({"case": case.to_json(), "observed": o.to_json()}));
+        }
+    }
+}
+
 fn c12_sched_blocks(ctx: &Ctx) -> Vec<(usize, Option<u32>, Vec<crate::e3::POp>, WakerPolicy, u64)> {
     let mut v = Vec::new();
     let cap = if ctx.leg.slow() { 6 } else if thorough(ctx) { 3000 } else { 300 };
@@ -209,10 +284,10 @@ impl Prop for C12 {
         "exploration"
     }
     fn rule(&self, _: &Ctx) -> String {
-        "size_hint() and is_end_stream() sampled before EVERY poll of every body of: the C01 workload (serve: Once / ExactLen bodies, all lengths x chunk plans), the C06 workload (multipart), the C08, C09 and C11 op sequences (streaming raw / gzip, incl. abort), C10-style schedules with the hint sampled inside the scheduling windows, and all Body::from conversions + Body::empty (lengths 0, 1, 4096). Judged against the total known at the clean end: lower <= remaining <= upper, exactness for serve and conversion bodies, nothing but end after is_end_stream() = true. Non-trivial = distinct body with >= 2 samples".into()
+        "size_hint() and is_end_stream() sampled before EVERY poll of every body of: the C01 workload (serve: Once / ExactLen bodies, all lengths x chunk plans), the C06 workload (multipart), the C08, C09 and C11 op sequences (streaming raw / gzip, incl. abort), C10-style schedules with the hint sampled inside the scheduling windows, free-running hint-spin trials (one thread calls is_end_stream()/size_hint() in a tight loop while another ends the writer - drop with an unflushed tail, or abort - after a random delay; samples judged against what the body then delivers), and all Body::from conversions + Body::empty (lengths 0, 1, 4096). Judged against the total known at the clean end: lower <= remaining <= upper, exactness for serve and conversion bodies, nothing but end after is_end_stream() = true. Non-trivial = distinct body with >= 2 samples".into()
     }
     fn n_blocks(&self, ctx: &Ctx) -> usize {
-        c01_n_blocks(ctx) + c06_n_blocks() + c08_n_blocks(ctx) + c09_n_blocks(ctx) + c11_seq_space(ctx).blocks.len() + c12_sched_blocks(ctx).len() + 1
+        c01_n_blocks(ctx) + c06_n_blocks() + c08_n_blocks(ctx) + c09_n_blocks(ctx) + c11_seq_space(ctx).blocks.len() + c12_sched_blocks(ctx).len() + c12_spin_blocks(ctx).len() + 1
     }
     fn run_block(&self, b: usize, sink: &mut Sink) {
         let ctx = sink.ctx.clone();
@@ -261,12 +336,25 @@ impl Prop for C12 {
             sink.add("schedules", nrun);
             return;
         }
+        k -= sb.len();
+        if k < c12_spin_blocks(&ctx).len() {
+            c12_spin_block(k, sink);
+            return;
+        }
         c12_conversions(sink);
     }
     fn replay(&self, case: &Value, sink: &mut Sink) {
         let inner = if case.get("case").is_some() { &case["case"] } else { case };
         if inner.get("conversion").is_some() {
             c12_conversions(sink);
+        } else if inner.get("spin").is_some() {
+            let c = crate::e3::SpinCase::from_json(inner);
+            for _ in 0..20_000 {
+                if let Some(o) = crate::e3::run_spin(&c) {
+                    let v = c12_spin_judge(&c, &o, sink);
+                    sink.record(v, Some(hash64(&c)), &|| json!({"case": c.to_json(), "observed": o.to_json()}));
+                }
+            }
         } else if inner.get("prog").is_some() {
             let c = SchedCase::from_json(inner);
             if let Some(o) = crate::e3::run_sched(&c) {
@@ -280,7 +368,7 @@ impl Prop for C12 {
         }
     }
     fn floors(&self, _: &Ctx) -> Vec<(&'static str, u64)> {
-        vec![("hint_samples", 100_000), ("bodies_serve-multipart", 1000), ("bodies_serve-exactlen", 1000), ("bodies_serve-once", 1000), ("bodies_stream-raw", 1000), ("bodies_stream-gzip", 1000), ("conversion_bodies", 30), ("hint_samples_in_schedules", 1000), ("samples_with_upper_bound", 1000)]
+        vec![("hint_samples", 100_000), ("bodies_serve-multipart", 1000), ("bodies_serve-exactlen", 1000), ("bodies_serve-once", 1000), ("bodies_stream-raw", 1000), ("bodies_stream-gzip", 1000), ("conversion_bodies", 30), ("hint_samples_in_schedules", 1000), ("samples_with_upper_bound", 1000), ("spin_trials", 1000), ("spin_trials_overlapping_the_writer_end", 100)]
     }
     fn assumptions(&self) -> Vec<String> {
         vec!["the range of the hint is judged only for bodies that end cleanly (the statement conditions on it); undrained giant serve bodies are judged on exactness and on hint = announced - delivered".into()]
